@@ -310,7 +310,7 @@ func genArpaName(rng *rand.Rand) string {
 		b[rng.IntN(len(b))] ^= 0x20
 		s = string(b)
 	}
-	return s
+	return dictMutate(rng, s, ".", 16)
 }
 
 func genIPBytes(rng *rand.Rand) []byte {
